@@ -404,7 +404,13 @@ class Hist(object):
             for j, op in enumerate(ops):
                 self.step(j, op)
             # end of history: all vantage points agree with the model
-            if "h" in self.handles():
+            if self.stop_at_reopen and "h" in self.handles():
+                self.compare("end of history (same handle after fault)", node_dump=True, observer=True)
+                self.call({"op": "drop", "h": "h"})
+                self.call({"op": "gc"})
+                self.open_handle()
+                self.liveness(len(ops))
+            elif "h" in self.handles():
                 self.compare("end of history", node_dump=True, observer=True)
         except Stop:
             pass
@@ -442,6 +448,12 @@ class Hist(object):
         if k == "gc":
             self.call({"op": "gc"})
             return
+        if k in ("reopen", "restart") and self.stop_at_reopen:
+            self.call({"op": "drop", "h": "h"})
+            self.call({"op": "gc"})
+            self.open_handle()
+            self.liveness(j)
+            raise Stop()
         if k == "reopen":
             if op.get("keep_reader"):
                 self.reader = True
@@ -528,8 +540,17 @@ class Hist(object):
         self.call({"op": "gc"})
         self.pending_gc = False
         if injected and not self.src_fault_only:
-            # an sql error / cancel inside the handle's own transaction leaves that connection with
-            # uncommitted work; the recovery step of the alphabet is close/reopen
+            if k == "update":
+                # update() writes through a connection of its own: after an error / cancel inside it (and one gc)
+                # the handle must show exactly what a fresh process shows, and stays usable.  The history goes on
+                # with this handle until the next reopen/restart (after which key numbering is no longer judged,
+                # see ASSUMPTIONS: the counters of an update are committed after its rows).
+                self.compare("after failed update + gc (same handle)")
+                self.probes["continued_on_same_handle_after_fault"] = self.probes.get("continued_on_same_handle_after_fault", 0) + 1
+                self.stop_at_reopen = True
+                return
+            # an sql error / cancel inside the handle's own transaction (delete, add_relation) leaves that
+            # connection with uncommitted work; the recovery step of the alphabet is close/reopen
             self.call({"op": "drop", "h": "h"})
             self.call({"op": "gc"})
             self.open_handle()
@@ -539,6 +560,7 @@ class Hist(object):
         self.compare("after failed op + gc")
 
     pending_gc = False
+    stop_at_reopen = False
     pre_ids = frozenset()
 
     def request(self, j, op):
